@@ -2648,7 +2648,7 @@ func (s *Server) serveConnCounted(c net.Conn, countConcurrency bool) error {
 			s.Handler(ctx)
 		}
 
-		if rs, ok := ctx.Request.bodyStream.(*requestStream); ok && !rs.fullyRead() {
+		if rs, ok := ctx.Request.bodyStream.(*requestStream); (ok && !rs.fullyRead()) || ctx.Request.bodyStreamUnread {
 			// The handler left a part of the streamed request body unread.
 			// The rest of the body is still on the connection, so the next
 			// request does not start at the next byte: close the connection
